@@ -29,13 +29,14 @@ package decoder
 
 // ---- C07: the prefix of a name or label being typed is the token under the cursor
 //@ contract decoder.nameTokenRangeAtPos (tokens, pos) (rng, err)
-//@   loop 1 iter [C07,name:scan-goes-on-only-past-tokens-that-do-not-hold-the-cursor] !t.Range.ContainsPos(pos)
-//@   ensures [C07,name:identifier-under-the-cursor] implies(t.Range.ContainsPos(pos) && t.Type == hclsyntax.TokenIdent, err == nil && rng == t.Range)
-//@   ensures [C07,name:identifier-before-the-newline] implies(t.Range.ContainsPos(pos) && t.Type == hclsyntax.TokenNewline && i > 0 && tokens[i-1].Type == hclsyntax.TokenIdent, err == nil && rng == tokens[i-1].Range)
+//@   loop 1 iter [C07,C06,name:scan-goes-on-only-past-tokens-that-do-not-hold-the-cursor] !t.Range.ContainsPos(pos)
+//@   ensures [C07,C06,name:identifier-under-the-cursor] implies(t.Range.ContainsPos(pos) && t.Type == hclsyntax.TokenIdent, err == nil && rng == t.Range)
+//@   ensures [C07,C06,name:identifier-before-the-newline] implies(t.Range.ContainsPos(pos) && t.Type == hclsyntax.TokenNewline && i > 0 && tokens[i-1].Type == hclsyntax.TokenIdent, err == nil && rng == tokens[i-1].Range)
+//@   ensures [C07,C06,name:no-name-under-any-other-token] implies(t.Range.ContainsPos(pos) && t.Type != hclsyntax.TokenIdent && t.Type != hclsyntax.TokenNewline, rng.Filename == "" && rng.Start.Byte == 0 && rng.End.Byte == 0)
 //@ contract decoder.labelTokenRangeAtPos (tokens, pos) (rng, err)
-//@   loop 1 iter [C07,name:scan-goes-on-only-past-tokens-that-are-not-label-text-under-the-cursor] !(t.Range.ContainsPos(pos) && (t.Type == hclsyntax.TokenQuotedLit || t.Type == hclsyntax.TokenIdent))
-//@   ensures [C07,name:label-text-under-the-cursor] implies(t.Range.ContainsPos(pos) && (t.Type == hclsyntax.TokenQuotedLit || t.Type == hclsyntax.TokenIdent), err == nil && rng == t.Range)
-//@   ensures [C07,name:label-text-before-the-closing-quote] implies(err == nil && !(t.Type == hclsyntax.TokenQuotedLit || t.Type == hclsyntax.TokenIdent), t.Range.ContainsPos(pos) && t.Type == hclsyntax.TokenCQuote && i > 0 && tokens[i-1].Type == hclsyntax.TokenQuotedLit && rng == tokens[i-1].Range)
+//@   loop 1 iter [C07,C06,name:scan-goes-on-only-past-tokens-that-are-not-label-text-under-the-cursor] !(t.Range.ContainsPos(pos) && (t.Type == hclsyntax.TokenQuotedLit || t.Type == hclsyntax.TokenIdent))
+//@   ensures [C07,C06,name:label-text-under-the-cursor] implies(t.Range.ContainsPos(pos) && (t.Type == hclsyntax.TokenQuotedLit || t.Type == hclsyntax.TokenIdent), err == nil && rng == t.Range)
+//@   ensures [C07,C06,name:label-text-before-the-closing-quote] implies(err == nil && !(t.Type == hclsyntax.TokenQuotedLit || t.Type == hclsyntax.TokenIdent), t.Range.ContainsPos(pos) && t.Type == hclsyntax.TokenCQuote && i > 0 && tokens[i-1].Type == hclsyntax.TokenQuotedLit && rng == tokens[i-1].Range)
 
 // ---- C14: a block symbol is named by its type followed by every label, quoted.
 //@ contract (*decoder.BlockSymbol).Name (bs) (name)
